@@ -93,6 +93,21 @@ func c03(c *core.Ctx) {
 	c.Rule("C03.shape", "Variant.Encode writes arrayDimensionsLength entries of arrayDimensions; Decode allocates arrayDimensions with exactly that length and fills it before a success return", 1)
 	c.Rule("C03.encnil", "ua.Encode / Buffer.WriteStruct never call reflect.Value.Type() on the zero reflect.Value: an argument that may be a nil interface is tested (v == nil / IsValid) first", 1)
 
+	// decode → encode → decode is stable only if Encode writes every field Decode reads, under the same presence
+	// guard: C01's pair comparison applies verbatim to the hand-written codecs of package ua
+	c.Rule("C03.reencode", "for every hand-written ua codec pair, Encode writes each field under the same presence guard (mask test / case label) under which Decode reads it: a non-canonical but decodable value (a picoseconds bit without its timestamp bit) is re-encoded with exactly the fields its mask announces", 8)
+	{
+		tmp := core.NewCtx(c.Prop, c.Tier, c.P)
+		c01(tmp)
+		for _, e := range tmp.Errors {
+			c.Fatal("%s", e)
+		}
+		for _, o := range tmp.Obs {
+			if o.Rule == "C01.pairs" && strings.HasPrefix(o.Key, "ua.") && strings.Contains(o.Key, "Decode ↔ Encode") {
+				c.Ob("C03.reencode", o.Key, o.Pos, o.OK, o.Detail)
+			}
+		}
+	}
 	writeStruct := obj(c, "ua", "Buffer", "WriteStruct")
 	for _, cp := range codecPairs(c, "ua") {
 		if cp.dec == nil || cp.enc == nil {
